@@ -1,6 +1,6 @@
 (* GenSelector.v - GENERATED from /repo by /verif/translator; do not edit.
    source cssutils/css/selector.py sha1 985d8b3cce66
-   source cssutils/serialize.py sha1 c63358564408
+   source cssutils/serialize.py sha1 5b5458f03af7
 *)
 From Coq Require Import List NArith ZArith Bool.
 From CssV Require Import Base.Regex Base.Tokens.
